@@ -85,20 +85,20 @@ Section Access.
   Lemma finish_coherent : forall sync fixed ifixed regen alloc db ps,
     coherent db ps -> regen = false \/ ifixed = true ->
     coherent (fst (resync_db sync fixed regen alloc db))
-             (finish ifixed regen (snd (resync_db sync fixed regen alloc db)) ps).
+             (finish fixed ifixed regen (snd (resync_db sync fixed regen alloc db)) ps).
   Proof.
     intros sync fixed ifixed regen alloc db ps Hc Hsw. unfold finish.
     replace (regen && negb ifixed) with false by (destruct Hsw as [-> | ->]; [reflexivity | rewrite andb_false_r; reflexivity]).
-    destruct (0 <? snd (resync_db sync fixed regen alloc db)) eqn:E.
+    destruct (sw_inval fixed || (0 <? snd (resync_db sync fixed regen alloc db))) eqn:E.
     - apply coherent_invalidated.
-    - apply N.ltb_ge in E. assert (E0 : snd (resync_db sync fixed regen alloc db) = 0) by lia.
+    - apply orb_false_iff in E. destruct E as [_ E]. apply N.ltb_ge in E. assert (E0 : snd (resync_db sync fixed regen alloc db) = 0) by lia.
       rewrite (resync_db_zero body sync fixed regen db alloc E0). exact Hc.
   Qed.
 
-  Lemma finish_invalidated : forall ifixed regen n ps, invalidate_all (finish ifixed regen n ps) = invalidate_all ps.
+  Lemma finish_invalidated : forall fixed ifixed regen n ps, invalidate_all (finish fixed ifixed regen n ps) = invalidate_all ps.
   Proof.
     intros. unfold finish. destruct (regen && negb ifixed); [reflexivity|].
-    destruct (0 <? n); [apply invalidate_all_idem | reflexivity].
+    destruct (sw_inval fixed || (0 <? n)); [apply invalidate_all_idem | reflexivity].
   Qed.
 
   (* ---------------------------------------------------------------- visible document sets *)
